@@ -280,4 +280,168 @@ Proof.
     + unfold same_diff. rewrite F2, F3, F7, F8, F9, F10. repeat split.
 Qed.
 
+
+(* ================= one STAT of the stream against the unread old listing ================= *)
+Section Feed.
+Variables (stin : rstate) (acc : list vitem) (s2 : stat) (v' : list ventry) (seen' : list bytes) (idx : nat).
+Let p : bytes := st_path s2.
+Let it : vitem := item_of s2.
+Let acc' : list vitem := acc ++ [it].
+
+Hypothesis Hok : ok_path p = true.
+Hypothesis Hclp : cleanp p.
+Hypothesis Hspec : spec_ok (map citem_of acc) (citem_of it).
+Hypothesis HI' : Inv (map ce v') (map citem_of acc').
+Hypothesis Hparent : exists l, In (removelast (comps p), l) (map ce v').
+Hypothesis Hacc : Forall (fun it0 => ok_path (vpath it0) = true /\ cleanp (vpath it0)) acc.
+
+(* the removed-directory prefix while the entry is being diffed *)
+Definition rmJ (rm : bytes) (old : list stat) : Prop :=
+  rm = [] \/ exists X, rm = X ++ [sep] /\ ok_path X = true
+     /\ (forall s, In s old -> compare_path X (st_path s) = Lt)
+     /\ (forall it0, In it0 acc' -> vpath it0 = X -> visdir it0 = false)
+     /\ compare_path X p = Lt.
+
+Record J (st : rstate) (old done : list stat) : Prop := {
+  j_base : GB st acc';
+  j_vstk : r_vstk st = v';
+  j_seen : r_seen st = seen';
+  j_pipes : forall id pp, In (id, pp) (r_pipes st) -> In (pp_path pp) (accpaths acc);
+  j_split : L0 = done ++ old;
+  j_done : forall s, In s done -> compare_path (st_path s) p = Lt;
+  j_gt : forall s it0, In s old -> In it0 acc -> compare_path (vpath it0) (st_path s) = Lt;
+  j_live : live st = true ->
+     (forall j t, reach (r_fs st) j -> tmpname tmps0 t -> blookup t (ents (r_fs st) j) = None)
+     /\ (forall q, In q (accpaths acc) -> safe (r_fs stin) D (comps q) -> safe (r_fs st) D (comps q))
+     /\ prist (r_fs st) (r_rmdir st) old
+     /\ rmJ (r_rmdir st) old
+}.
+
+Lemma old_in st old done s : J st old done -> In s old -> In s L0.
+Proof. intros Jv Hs. rewrite (j_split _ _ _ Jv). apply in_or_app. right. exact Hs. Qed.
+
+Lemma old_sorted st old done : J st old done -> StronglySorted plt old.
+Proof. intros Jv. apply (SS_app_r plt done old). rewrite <- (j_split _ _ _ Jv). apply (of_sorted D f0 L0 OF). Qed.
+
+Lemma rmJ_rm_ok rm old : rmJ rm old -> rm_ok rm acc' old.
+Proof.
+  intros [->|(X & E & A & B & C0 & E2)]; [left; reflexivity|right]. exists X. repeat split; auto.
+  exists it. split; [unfold acc'; apply in_or_app; right; left; reflexivity|].
+  cbn [vpath it item_of]. fold p. rewrite E2. discriminate.
+Qed.
+
+Lemma accpaths_lt_p q : In q (accpaths acc) -> compare_path q p = Lt.
+Proof.
+  intros Hq. destruct Hspec as (_ & Hlt & _). unfold accpaths in Hq. apply in_map_iff in Hq. destruct Hq as (x & <- & Hx).
+  rewrite compare_path_lex. apply (Hlt (citem_of x)). apply in_map. exact Hx.
+Qed.
+
+(* a skipped entry *)
+Lemma suppressed_step st f1 rest done :
+  J st (f1 :: rest) done -> compare_path (st_path f1) p = Lt ->
+  J (set_diff st rest (r_rmdir st)) rest (done ++ [f1]).
+Proof.
+  intros Jv Hlt. pose proof (j_base _ _ _ Jv) as G. constructor; cbn [r_vstk r_seen r_pipes set_diff r_fs r_rmdir].
+  - apply (GBase_quiet D f0 tmps0 st _ acc' b0 G); try (unfold b0; lia); simpl.
+    + apply step_refl; [apply (g_wf D f0 tmps0 st acc' G)|apply (g_next D f0 tmps0 st acc' G)].
+    + repeat split.
+    + apply G.
+  - apply Jv.
+  - apply Jv.
+  - apply Jv.
+  - rewrite (j_split _ _ _ Jv), <- app_assoc. reflexivity.
+  - intros s Hs. apply in_app_or in Hs. destruct Hs as [Hs|[<-|[]]]; [apply (j_done _ _ _ Jv s Hs)|exact Hlt].
+  - intros s it0 Hs. apply (j_gt _ _ _ Jv). right. exact Hs.
+  - intros L. destruct (j_live _ _ _ Jv L) as (A1 & A2 & A3 & A4). split; auto. split; auto. split.
+    + intros s Hs. apply A3. right. exact Hs.
+    + destruct A4 as [->|(X & E & B1 & B2 & B3 & B4)]; [left; reflexivity|right].
+      exists X. repeat split; auto. intros s Hs. apply B2. right. exact Hs.
+Qed.
+
+
+Lemma acc_clean q : In q (accpaths acc) -> ok_path q = true /\ cleanp q.
+Proof. intros Hq. apply (In_accpaths_clean tmps0 acc q Hacc Hq). Qed.
+
+Lemma live_set_diff st old rm : live (set_diff st old rm) = live st.
+Proof. reflexivity. Qed.
+
+(* an old entry that the stream does not have (it sorts before the current path): RemoveAll *)
+Lemma delete_step st f1 rest done :
+  J st (f1 :: rest) done -> compare_path (st_path f1) p = Lt ->
+  suppressed (r_rmdir st) (st_path f1) = false ->
+  J (apply_change c idx 2 (st_path f1) f1 (set_diff st rest (rm_prefix_of f1))) rest (done ++ [f1]).
+Proof.
+  intros Jv Hlt Hsup. pose proof (j_base _ _ _ Jv) as G.
+  set (q1 := st_path f1) in *. set (st0 := set_diff st rest (rm_prefix_of f1)).
+  assert (Hin1 : In f1 L0) by (apply (old_in st (f1 :: rest) done f1 Jv); left; reflexivity).
+  destruct (old_entry f1 Hin1) as (Hok1 & Hcl1 & i1 & Hw1 & Hd1 & Hex1 & _).
+  assert (G0 : GB st0 acc').
+  { apply (GBase_quiet D f0 tmps0 st st0 acc' b0 G); try (unfold b0; lia); simpl.
+    - apply step_refl; [apply (g_wf D f0 tmps0 st acc' G)|apply (g_next D f0 tmps0 st acc' G)].
+    - repeat split.
+    - apply G. }
+  assert (HSS : StronglySorted plt (f1 :: rest)) by (apply (old_sorted st (f1 :: rest) done Jv)).
+  assert (Hokall : forall s, In s (f1 :: rest) -> ok_path (st_path s) = true).
+  { intros s Hs. apply (old_entry s (old_in st _ done s Jv Hs)). }
+  assert (Hpre : live st0 = true -> change_pre D tmps0 2 st0 q1 f1 acc').
+  { intros L. destruct (j_live _ _ _ Jv L) as (A1 & A2 & A3 & A4).
+    unfold change_pre. cbn [r_fs st0 set_diff r_pipes].
+    split; [exact Hok1|]. split; [exact Hcl1|]. split.
+    - pose proof (A3 f1 (or_introl eq_refl) Hsup) as Hp. rewrite Hw1 in Hp.
+      apply (rwalk_prefix_safe (r_fs st) (comps q1) D i1 Hp).
+    - split; [exact A1|]. split; [discriminate|]. split; [|discriminate].
+      intros id pp Hin. apply cmp_lt_not_prefix.
+      pose proof (j_pipes _ _ _ Jv id pp Hin) as Hq. unfold accpaths in Hq. apply in_map_iff in Hq.
+      destruct Hq as (x & Ex & Hx). rewrite <- Ex. apply (j_gt _ _ _ Jv f1 x (or_introl eq_refl) Hx). }
+  pose proof (apply_change_inv D root f0 tmps0 tmp_ok idx 2 q1 f1 st0 acc' G0 Hpre) as X.
+  change {| c_root := root; c_cwd := D |} with c in X. cbv zeta in X.
+  set (st1 := apply_change c idx 2 q1 f1 st0) in *.
+  destruct X as (G1 & (F1 & F2 & F3 & F4 & _) & Hpost).
+  constructor.
+  - exact G1.
+  - rewrite F1. apply Jv.
+  - rewrite F2. apply Jv.
+  - unfold st1. rewrite apply_change_del_pipes. apply (j_pipes _ _ _ Jv).
+  - rewrite (j_split _ _ _ Jv), <- app_assoc. reflexivity.
+  - intros s Hs. apply in_app_or in Hs. destruct Hs as [Hs|[<-|[]]]; [apply (j_done _ _ _ Jv s Hs)|exact Hlt].
+  - intros s it0 Hs. apply (j_gt _ _ _ Jv). right. exact Hs.
+  - intros L1. destruct (Hpost L1) as (L0' & P1 & P2 & _).
+    destruct (j_live _ _ _ Jv L0') as (A1 & A2 & A3 & A4).
+    split; [exact P1|]. split; [|split].
+    + intros q Hq Hs. refine (proj1 (P2 (comps q) _ _) _).
+      * apply cmp_lt_not_prefix. unfold accpaths in Hq. apply in_map_iff in Hq. destruct Hq as (x & <- & Hx).
+        apply (j_gt _ _ _ Jv f1 x (or_introl eq_refl) Hx).
+      * apply (acc_clean q Hq).
+      * apply (A2 q Hq Hs).
+    + (* entries not yet passed resolve as at the start *)
+      rewrite F4. cbn [r_rmdir st0 set_diff]. intros s Hs Hsup'.
+      assert (Hins : In s L0) by (apply (old_in st _ done s Jv); right; exact Hs).
+      destruct (old_entry s Hins) as (Hoks & Hcls & i' & Hws & _).
+      assert (Hbefore : suppressed (r_rmdir st) (st_path s) = false).
+      { apply (not_supp_rest (r_rmdir st) acc' f1 rest HSS Hokall (rmJ_rm_ok _ _ A4) Hsup s Hs). }
+      rewrite <- (A3 s (or_intror Hs) Hbefore).
+      refine (proj2 (P2 (comps (st_path s)) _ Hcls)).
+      intros Hpfx.
+      assert (Hne : q1 <> st_path s).
+      { apply cmp_lt_ne. apply (SS_cons_lt plt f1 rest s HSS Hs). }
+      pose proof (prefix_proper_below q1 (st_path s) Hok1 Hpfx Hne) as Hbelow.
+      (* then f1 is a directory, and s is skipped *)
+      destruct Hbelow as (y & Hy & Ey).
+      assert (Hdir1 : st_is_dir f1 = true).
+      { rewrite Ey in Hws. destruct (rwalk_app_dir f0 D (comps q1) y i' Hws Hy) as (k & Hk & Hkd).
+        unfold q1 in Hk. rewrite Hw1 in Hk. inversion Hk; subst k. rewrite Hd1. exact Hkd. }
+      unfold rm_prefix_of in Hsup'. rewrite Hdir1 in Hsup'. fold q1 in Hsup'.
+      rewrite (below_suppressed q1 (st_path s) Hok1 Hoks) in Hsup'; [discriminate|].
+      exists y. split; auto.
+    + rewrite F4. cbn [r_rmdir st0 set_diff]. unfold rm_prefix_of. destruct (st_is_dir f1); [right|left; reflexivity].
+      exists q1. split; [reflexivity|]. split; [exact Hok1|]. split; [|split].
+      * intros s Hs. apply (SS_cons_lt plt f1 rest s HSS Hs).
+      * intros it0 Hin0 E0. exfalso. unfold acc' in Hin0. apply in_app_or in Hin0. destruct Hin0 as [Hin0|[<-|[]]].
+        -- pose proof (j_gt _ _ _ Jv f1 it0 (or_introl eq_refl) Hin0) as H. fold q1 in H. rewrite E0, compare_path_refl in H. discriminate.
+        -- cbn [vpath it item_of] in E0. fold p in E0. rewrite E0, compare_path_refl in Hlt. discriminate.
+      * exact Hlt.
+Qed.
+
+End Feed.
+
 End RecvOld.
